@@ -375,6 +375,10 @@ func checkC15(c *Ctx) {
 		hps := []hp{
 			{"module-variable-not-exported", "导入“模”\n输出 税率\n", "error:42", mod},
 			{"importer-variable-of-the-same-name", "导入“模”\n令税率 = 1\n输出【（含税：100），税率】\n", "list[num(105),num(1)]", mod},
+			{"definition-inside-module-handler/not-exported", "导入“模”\n输出（救援）\n", "error:42", "如何报数？\n\t输出 1\n抛出异常：“x”！\n\n拦截异常：\n\t如何救援？\n\t\t输出 42\n\t（显示：（救援））\n"},
+			{"definition-inside-module-handler/type-not-exported", "导入“模”\n输出（新建急救）之数\n", "error:42", "如何报数？\n\t输出 1\n抛出异常：“x”！\n\n拦截异常：\n\t定义急救：\n\t\t其数 = 7\n\t（显示：（新建急救）之数）\n"},
+			{"definition-inside-module-handler/shadows-own-method", "导入“模”\n输出（报数）\n", "num(1)", "如何报数？\n\t输出 1\n抛出异常：“x”！\n\n拦截异常：\n\t如何报数？\n\t\t输出 2\n\t（显示：（报数））\n"},
+			{"definition-inside-module-branch/not-exported", "导入“模”\n输出（内法）\n", "error:42", "如果 真：\n\t如何内法？\n\t\t输出 5\n\t（显示：（内法））\n如何外法？\n\t输出 6\n"},
 			{"module-body-handled-its-exception", "导入“模”\n输出【（取），（加），（取）】\n", "list[num(10),num(11),num(11)]", handled},
 			{"module-body-handled-its-exception/caller-has-handler", "导入“模”\n如何试？\n\t输出（取）\n\n\t拦截异常：\n\t\t输出 -1\n输出（试）\n", "num(10)", handled},
 		}
